@@ -149,76 +149,150 @@ func (m *streeModel) ruleDescents(c *Ctx) {
 		}
 		name := fnName(fn)
 		c.sawFn(name)
-		// comparator call: two args, arg1 = load of node.X, arg0 derived from a parameter that is not a node
+		// the comparison of the descent: a dynamic two-argument call whose second argument is the key of a
+		// node and whose first argument is a parameter — in the function itself or in a helper it hands the
+		// search to (Get → node.find)
 		var cmpCall *ssa.Call
-		allInstrs(fn, func(in ssa.Instruction) {
-			call, ok := in.(*ssa.Call)
-			if !ok || len(call.Call.Args) != 2 || call.Call.StaticCallee() != nil {
-				return
+		var host *ssa.Function
+		for _, h := range buildCallScope(fn).fns {
+			if cmpCall != nil {
+				break
 			}
-			if _, f := loadedField(call.Call.Args[1]); f != nil && sameField(f, m.keyF) {
-				if _, isParam := call.Call.Args[0].(*ssa.Parameter); isParam {
-					cmpCall = call
+			allInstrs(h, func(in ssa.Instruction) {
+				call, ok := in.(*ssa.Call)
+				if !ok || cmpCall != nil || len(call.Call.Args) != 2 || call.Call.StaticCallee() != nil {
+					return
 				}
-			}
-		})
+				if _, f := loadedField(call.Call.Args[1]); f != nil && sameField(f, m.keyF) {
+					if _, isParam := call.Call.Args[0].(*ssa.Parameter); isParam {
+						cmpCall, host = call, h
+					}
+				}
+			})
+		}
 		if cmpCall == nil {
 			c.undecided("R-ORIENT", name+":comparison", fn.Pos(), "no comparison compare(key, node.X) found")
 			continue
 		}
 		nodeVal, _ := loadedField(cmpCall.Call.Args[1])
-		// sign tests
-		for _, want := range []struct {
-			op   token.Token
-			side *types.Var
-			desc string
-		}{{token.LSS, m.small, "key < node"}, {token.GTR, m.large, "key > node"}} {
-			var region *ssa.BasicBlock
-			for _, r := range referrersOf(cmpCall) {
-				bo, ok := r.(*ssa.BinOp)
-				if !ok || bo.X != ssa.Value(cmpCall) || !isConstInt(bo.Y, 0) || bo.Op != want.op {
-					continue
-				}
-				for _, r2 := range referrersOf(bo) {
-					if iff, ok := r2.(*ssa.If); ok {
-						region = iff.Block().Succs[0]
-					}
-				}
+		// descent evidence: the child link of the compared node is stored (the modified subtree is hung
+		// back there), or its value becomes the node of the next step — an argument of a recursive call,
+		// or the next value of the cursor the compared node was read from
+		isDescent := func(a childAccess) bool {
+			if a.store {
+				return true
 			}
-			key := fmt.Sprintf("%s:%s", name, want.desc)
-			if region == nil {
-				eqTest := false
-				for _, r := range referrersOf(cmpCall) {
-					if bo, ok := r.(*ssa.BinOp); ok && bo.X == ssa.Value(cmpCall) && bo.Op == token.EQL {
-						if k, ok := constInt(bo.Y); ok && k != 0 {
-							eqTest = true
+			seen := map[ssa.Value]bool{}
+			found := false
+			var walk func(v ssa.Value, d int)
+			walk = func(v ssa.Value, d int) {
+				if seen[v] || found || d > 4 {
+					return
+				}
+				seen[v] = true
+				if v == nodeVal {
+					found = true
+					return
+				}
+				for _, r := range referrersOf(v) {
+					switch x := r.(type) {
+					case *ssa.Phi:
+						walk(x, d+1)
+					case *ssa.Call:
+						if cal := staticCallee(&x.Call); cal != nil && origin(cal) == origin(host) {
+							for _, arg := range x.Call.Args {
+								if arg == v {
+									found = true
+								}
+							}
 						}
 					}
 				}
-				if eqTest {
-					c.bad("R-ORIENT", key, cmpCall.Pos(), "the comparator's result is tested for equality with ±1; comparators may return any negative or positive value (e.g. a − b), so keys are misclassified as equal")
-				} else {
-					c.undecided("R-ORIENT", key, cmpCall.Pos(), "no branch on the sign of the comparison")
-				}
-				continue
 			}
-			// first child access on the compared node in the region
-			var first *childAccess
-			for _, a := range m.childAccesses(fn) {
-				a := a
-				if a.fa.X != nodeVal {
+			for _, r := range referrersOf(a.fa) {
+				if ld, ok := r.(*ssa.UnOp); ok && ld.Op == token.MUL {
+					walk(ld, 0)
+				}
+			}
+			return found
+		}
+		// the sign of the comparison known at a block: subset of {neg, zero, pos} as bits 1, 2, 4
+		signAt := func(b *ssa.BasicBlock) int {
+			s := 7
+			for _, cm := range cmpsAt(b) {
+				x, y, op := cm.X, cm.Y, cm.Op
+				if y == ssa.Value(cmpCall) {
+					x, y = y, x
+					switch op {
+					case token.LSS:
+						op = token.GTR
+					case token.LEQ:
+						op = token.GEQ
+					case token.GTR:
+						op = token.LSS
+					case token.GEQ:
+						op = token.LEQ
+					}
+				}
+				k, isK := constInt(y)
+				if x != ssa.Value(cmpCall) || !isK {
 					continue
 				}
-				if region.Dominates(a.in.Block()) {
-					first = &a
-					break
+				m := 0
+				for bit, v := range map[int]int64{1: -1, 2: 0, 4: 1} {
+					// representative values: a negative, zero, a positive; ±1 stand for their whole class only
+					// for the sign-invariant tests R-CMP-SIGN admits — other tests are that rule's business
+					hold := false
+					switch op {
+					case token.LSS:
+						hold = v < k
+					case token.LEQ:
+						hold = v <= k
+					case token.GTR:
+						hold = v > k
+					case token.GEQ:
+						hold = v >= k
+					case token.EQL:
+						hold = v == k
+					case token.NEQ:
+						hold = v != k
+					}
+					if hold {
+						m |= bit
+					}
 				}
+				s &= m
 			}
-			if first == nil {
-				c.undecided("R-ORIENT", key, cmpCall.Pos(), "the branch does not touch a child of the compared node")
+			return s
+		}
+		judged := map[string]bool{}
+		for _, a := range m.childAccesses(host) {
+			if a.fa.X != nodeVal || !isDescent(a) {
 				continue
 			}
-			c.judge(sameField(first.fld, want.side), "R-ORIENT", key, first.in.Pos(), "descends into ."+first.fld.Name(), fmt.Sprintf("when %s the descent goes into .%s, but the in-order walk puts smaller keys under .%s: the search and the iteration disagree about the order", want.desc, first.fld.Name(), m.small.Name()))
+			s := signAt(a.in.Block())
+			var want *types.Var
+			var desc string
+			switch {
+			case s&4 == 0 && s&1 != 0:
+				want, desc = m.small, "key < node"
+			case s&1 == 0 && s&4 != 0:
+				want, desc = m.large, "key > node"
+			default:
+				continue // not decided by the sign of the comparison here
+			}
+			key := fmt.Sprintf("%s:%s", name, desc)
+			if judged[key] && sameField(a.fld, want) {
+				continue
+			}
+			judged[key] = true
+			c.judge(sameField(a.fld, want), "R-ORIENT", key, a.in.Pos(), "descends into ."+a.fld.Name(), fmt.Sprintf("when %s the descent goes into .%s, but the in-order walk puts smaller keys under .%s: the search and the iteration disagree about the order", desc, a.fld.Name(), m.small.Name()))
+		}
+		for _, desc := range []string{"key < node", "key > node"} {
+			key := fmt.Sprintf("%s:%s", name, desc)
+			if !judged[key] {
+				c.undecided("R-ORIENT", key, cmpCall.Pos(), "no descent into a child of the compared node under this sign of the comparison")
+			}
 		}
 	}
 }
@@ -399,7 +473,7 @@ func runC01(c *Ctx) {
 	c.rule("R-ROOT-FLOW", 5, "the root stored by Add/Replace/Remove derives from the result of the modification (through rewrite at most), on every path where something changed")
 	c.rule("R-NEW-DEDUP", 2, "New sorts (or checks sortedness) and de-duplicates on every path to the bulk loader")
 	c.rule("R-SIZE-PAIR", 2, "the cached element count changes by +1 under a successful insertion, −1 under a successful removal, or to 0 with the root dropped")
-	c.rule("R-CMP-SIGN", 6, "every test of the comparison function's result against a constant is a test of its sign only")
+	c.rule("R-CMP-SIGN", 2, "every test of the comparison function's result against a constant is a test of its sign only")
 	ruleCmpSign(c, "R-CMP-SIGN", P.PkgFuncs("stree"))
 	m := buildStreeModel(c)
 	if m == nil {
@@ -595,7 +669,7 @@ func runC03(c *Ctx) {
 	m.ruleAscendGated(c)
 	// Tree.Cursor(key) is built from the search path: the sign discipline of its comparisons is part of
 	// "consistent with key order" (the orientation of the descents themselves is decided under C01/C04)
-	c.rule("R-CMP-SIGN", 6, "every test of the comparison function's result against a constant is a test of its sign only")
+	c.rule("R-CMP-SIGN", 2, "every test of the comparison function's result against a constant is a test of its sign only")
 	ruleCmpSign(c, "R-CMP-SIGN", P.PkgFuncs("stree"))
 	// Clone
 	if cl := P.Func("stree", "Cursor", "Clone"); cl != nil {
@@ -834,6 +908,8 @@ func runC04(c *Ctx) {
 	c.rule("R-ORIENT", 8, "key descents of the underlying tree agree with the in-order orientation; comparator results are tested by sign")
 	c.rule("R-RELINK", 1, "deleting a two-child node re-attaches the successor's subtree")
 	c.rule("R-SEEK-RESET", 1, "Iter.Seek starts by invalidating the cursor, so a seek past the last key leaves the iterator invalid")
+	c.rule("R-CMP-SIGN", 2, "every test of the comparison function's result against a constant is a test of its sign only")
+	ruleCmpSign(c, "R-CMP-SIGN", append(P.PkgFuncs("stree"), P.PkgFuncs("omap")...))
 	c.rule("R-NATURAL-ORDER", 1, "omap.New orders keys by cmp.Compare (or a comparison that reaches it / handles NaN), the total order the documentation names")
 	if nw := P.Func("omap", "", "New"); nw == nil {
 		c.undecided("ANCHOR", "omap.New", 0, "not found")
